@@ -314,7 +314,7 @@ int main(int argc, char** argv)
     r.axis("max_evals", jarr_num(evals));
     r.axis("tuners", jarr_str(tuners));
     r.axis("value_alphabet", jstr("three answers for every grid point the tuner queries (lazy: unqueried cells are not branched on), "
-                                   "from each of the alphabets {0,1,2}, {0,1e-17,2e-17}, {1,1+eps,1+2eps}"));
+                                   "from each of the alphabets {0,1,2} (all grids), {0,1e-17,2e-17} and {1,1+eps,1+2eps} (grids of at most 9 cells)"));
 
     // configurations are dealt out to the shards, heaviest first so that they spread
     std::vector<config_t> configs;
@@ -328,6 +328,16 @@ int main(int argc, char** argv)
                 {
                     for (int alphabet = 0; alphabet < 3; ++alphabet)
                     {
+                        // the near-tie alphabets are run on the grids of at most 9 cells (3^9 landscapes each)
+                        int cells = 1;
+                        for (const auto sz : G[gi].sizes)
+                        {
+                            cells *= sz;
+                        }
+                        if (alphabet > 0 && cells > 9)
+                        {
+                            continue;
+                        }
                         config_t c = k;
                         c.tuner = t, c.grid = static_cast<int>(gi), c.scale = scale, c.max_evals = me, c.alphabet = alphabet;
                         configs.push_back(c);
